@@ -17,7 +17,8 @@ MIN_COUNTERS = dict(quick={'limit_values_asserted': 1500, 'residue_values_assert
                            'array_cases': 300, 'multidimensional_array_cases': 60, 'complex_z0_cases': 400, 'spiral_cases': 400, 'side_asserted': 600,
                            'method:above': 500, 'method:below': 500},
                     thorough={'limit_values_asserted': 60000})
-RULE = ('f(z) = g(z) s(z - z0), g in {exp(a z), polynomial, cos z + 2, 1/(4 + z)}, s in {sin w / w, expm1 w / w, log1p w / w, w / sin w, '
+RULE = ('Arrays of 1 to 3 dimensions with the singular entries anywhere; step ratios also as Python ints. ' 
+        'f(z) = g(z) s(z - z0), g in {exp(a z), polynomial, cos z + 2, 1/(4 + z)}, s in {sin w / w, expm1 w / w, log1p w / w, w / sin w, '
         'tan w / w, (sin(w/2)/(w/2))^2, sin(sqrt w)/sqrt w (above only)}; z0 real in [-3, 3] or complex in the unit square; method above / '
         'below; path radial / spiral; order 1..8; step_ratio 2..16; scalar and array z0 mixing singular and regular points; Residue with '
         'g/(z - z0)^p, p = 1, 2, 3; every evaluation point recorded. distinct non-trivial = (kernel, g, side, path, complex?, order) '
